@@ -683,6 +683,7 @@ type Frame struct {
 	curBlock *ssa.BasicBlock
 	curIdx   int
 	unlocks  int
+	unlockSites map[token.Pos]int
 	gos      int
 	closes   int
 	recvs    int
